@@ -46,12 +46,17 @@ UNRELATED = ["rnbqkbnr/pppppppp/8/8/8/8/PPPPPPPP/RNBQKBNR w KQkq - 0 1", "r1bq1r
              "8/5pk1/6p1/3R4/2r4P/6P1/5PK1/8 w - - 0 40", "8/2p5/3p4/KP5r/1R3p1k/8/4P1P1/8 w - - 0 1", "4k3/8/8/8/8/8/4P3/4K3 w - - 0 1"]
 
 
-def random_root(rnd, cls, ref):
+def random_root(rnd, cls, ref, diagonal=False):
     """random legal placement of the class, as FEN without clocks"""
     k2 = cls.index("K", 1)
     white, black = cls[:k2], cls[k2:]
     for _ in range(1000):
         sqs = rnd.sample(range(64), len(cls))
+        if diagonal:
+            # all men on one long diagonal: the placements that are their own mirror image (the table generator folds the board along
+            # the a1-h8 diagonal, so these are the entries where a move and its mirror image coincide)
+            d = [i * 9 for i in range(8)] if rnd.random() < .5 else [7 + i * 7 for i in range(8)]
+            sqs = rnd.sample(d, len(cls))
         board = [None] * 64
         for ch, s in zip(white, sqs[:len(white)]):
             board[s] = ch
@@ -168,7 +173,7 @@ def worker(args):
         for i in range(nroots):
             if rnd.random() < .12:
                 cls = rnd.choice(classes)
-            base = random_root(rnd, cls, ref)
+            base = random_root(rnd, cls, ref, diagonal=rnd.random() < .12)
             if not base:
                 continue
             hmc = rnd.choice([0, 0, 0, rnd.randint(1, 60), rnd.randint(60, 99), rnd.randint(90, 99)])
